@@ -141,13 +141,14 @@ def proj_of(jp):
 
 
 class State:
-    __slots__ = ("env", "mem", "events", "visited")
+    __slots__ = ("env", "mem", "events", "visited", "known")
 
     def __init__(self):
         self.env = {}
         self.mem = {}
         self.events = []
         self.visited = ()
+        self.known = {}  # scrutinee term -> ("eq", value) | ("ne", frozenset(values)) decided earlier on this path
 
     def fork(self):
         s = State()
@@ -155,6 +156,7 @@ class State:
         s.mem = dict(self.mem)
         s.events = list(self.events)
         s.visited = self.visited
+        s.known = dict(self.known)
         return s
 
 
@@ -169,7 +171,8 @@ class Walker:
         self.stop_at = stop_at
         self.revisit = revisit
         self.paths = []
-        self.loop_assigned = self._loops()
+        self.loop_written = {}   # header -> locals assigned in the loop
+        self.loop_assigned = self._loops()  # header -> locals assigned or mutably borrowed in the loop
 
     def _loops(self):
         """header block -> locals assigned somewhere in the natural loop(s) of that header."""
@@ -188,15 +191,25 @@ class Walker:
                         body.add(x)
                         stack.extend(p for p in b.preds(x) if p in dom)
                     assigned = out.setdefault(h, set())
+                    written = self.loop_written.setdefault(h, set())
                     for x in body:
                         blk = b.blocks[x]
                         for st in blk["stmts"]:
                             # `*p = v` / `(*p).f = v` write through the pointer, they do not reassign the local p
                             if "p" in st and (not st["p"][1] or st["p"][1][0] != "*"):
                                 assigned.add(st["p"][0])
+                                written.add(st["p"][0])
+                            # `&mut x` handed to a callee inside the loop (get_or_insert_with(&mut x, ..)) may change x;
+                            # the awaitee of a `.await` poll loop is only polled through its pin, it stays the same future
+                            r = st.get("r")
+                            if r and r["k"] == "ref" and r.get("mut") and (not r["p"][1] or r["p"][1][0] != "*"):
+                                ty = b.locals[r["p"][0]]
+                                if not (b.names.get(r["p"][0]) == "__awaitee" or ty.startswith("impl ") or "Future" in ty or "{async" in ty or "Pin<" in ty):
+                                    assigned.add(r["p"][0])
                         t = blk["term"]
                         if t["k"] in ("call", "yield") and "dest" in t:
                             assigned.add(t["dest"][0])
+                            written.add(t["dest"][0])
         return out
 
     # -- evaluation --
@@ -320,7 +333,7 @@ class Walker:
                 # loop header: locals carried round the loop are unknown here, not their initial value
                 for l in self.loop_assigned[bb]:
                     if l in st.env:
-                        st.env[l] = ("phi", bb, l, b.local_name(l))
+                        st.env[l] = ("phi", bb, l, b.local_name(l), st.env[l])
                 for m in [m for m in st.mem if root_local(m) in self.loop_assigned[bb]]:
                     del st.mem[m]
             if self.stop_at and bb in self.stop_at:
@@ -345,6 +358,7 @@ class Walker:
                         st.mem[addr] = val
                     else:
                         st.mem[addr] = val
+                        forget(st, addr)
                         st.events.append(("store", bb, addr, val, s["s"]))
             t = blk["term"]
             k = t["k"]
@@ -391,6 +405,7 @@ class Walker:
                         kill = [m for m in st.mem if m == a[1] or is_prefix(a[1], m)]
                         for m in kill:
                             del st.mem[m]
+                        forget(st, a[1])
                 if k == "tailcall" or t.get("t") is None:
                     st.events.append(("diverge", bb))
                     self._emit(st)
@@ -423,22 +438,63 @@ class Walker:
                         st.events.append(("switch", bb, term, cv, listed))
                     bb = tgt
                     continue
+                # a scrutinee already decided on this path is not forked again (repeated `matches!`, nested matches)
+                kn = st.known.get(term)
+                if kn is not None and kn[0] == "eq":
+                    tgt = None
+                    for v, tb in vals:
+                        if v == kn[1]:
+                            tgt = tb
+                    st.events.append(("switch", bb, term, kn[1] if tgt is not None else "else", listed))
+                    bb = tgt if tgt is not None else t["else"]
+                    continue
+                excluded = kn[1] if kn is not None else frozenset()
                 # fork
-                seen_targets = {}
                 for v, tb in vals:
+                    if v in excluded:
+                        continue
                     s2 = st.fork()
                     s2.events.append(("switch", bb, term, v, listed))
-                    refine(s2, term, v)
+                    s2.known[term] = ("eq", v)
                     self._walk(tb, s2)
-                if term[0] == "discr" and len(term) > 2 and term[2] == len(set(listed)) and term[2] > 0:
-                    return  # every variant is listed: the otherwise edge is infeasible
+                nlisted = set(listed) | set(excluded)
+                if term[0] == "discr" and len(term) > 2 and term[2] > 0 and term[2] == len(nlisted):
+                    return  # every variant is listed (or was excluded earlier): the otherwise edge is infeasible
+                if term[0] == "c" or (isinstance(t.get("ty"), str) and t["ty"] == "bool" and len(nlisted) >= 2):
+                    return
                 s2 = st
                 s2.events.append(("switch", bb, term, "else", listed))
+                s2.known[term] = ("ne", frozenset(nlisted))
                 bb = t["else"]
-                # `else` of an exhaustive bool switch etc. is still walked; infeasible
-                # otherwise-arms end in `unreachable` and are dropped by callers.
+                # infeasible otherwise-arms end in `unreachable` and are dropped by callers.
                 continue
             raise RuntimeError("unknown terminator " + k)
+
+
+def forget(st, place):
+    """Decisions about values read from `place` (or below/above it) no longer hold after a write to it."""
+    if not st.known:
+        return
+    root = place
+    while root[0] in ("pl", "ref"):
+        root = root[1]
+    if root[0] not in ("arg", "loc", "phi", "call"):
+        return
+    dead = []
+    for term in st.known:
+        for sub in subterms(term):
+            if sub[0] == "pl":
+                r = sub
+                while r[0] in ("pl", "ref"):
+                    r = r[1]
+                if r == root and (sub == place or is_prefix(place, sub) or is_prefix(sub, place) or place[0] != "pl"):
+                    dead.append(term)
+                    break
+            elif sub == root and place[0] != "pl":
+                dead.append(term)
+                break
+    for d in dead:
+        st.known.pop(d, None)
 
 
 def root_local(t):
@@ -494,6 +550,13 @@ def fold_bin(op, a, b):
             return ("c", a[1], a[2] + b[2])
         if op in ("Sub", "SubWithOverflow", "SubUnchecked"):
             return ("c", a[1], a[2] - b[2])
+    # canonical comparisons: `a < b` is `b > a`, `a <= b` is `b >= a`; constants on the right of ==/!=
+    if op == "Lt":
+        return ("bin", "Gt", b, a)
+    if op == "Le":
+        return ("bin", "Ge", b, a)
+    if op in ("Eq", "Ne") and a[0] == "c" and b[0] != "c":
+        return ("bin", op, b, a)
     return ("bin", op, a, b)
 
 
